@@ -118,7 +118,7 @@ class Env:
             a[6][termios.VTIME] = 0
         termios.tcsetattr(self.slave, termios.TCSANOW, a)
         fcntl.fcntl(self.slave, fcntl.F_SETFL, (self.pristine_fl | os.O_NONBLOCK) if nonblock else (self.pristine_fl & ~os.O_NONBLOCK))
-        signal.signal(signal.SIGINT, self.custom_handler if prev_handler == "custom" else signal.default_int_handler)
+        signal.signal(signal.SIGINT, {"custom": self.custom_handler, "SIG_DFL": signal.SIG_DFL, "SIG_IGN": signal.SIG_IGN}.get(prev_handler, signal.default_int_handler))
         signal.set_wakeup_fd(self.other_pipe[1] if prev_wakeup == "pipe" else -1, warn_on_full_buffer=False)
         while select.select([self.other_pipe[0]], [], [], 0)[0]:
             os.read(self.other_pipe[0], 1024)
@@ -335,7 +335,7 @@ class FaultySelect:
 
 def opposite(cfg):
     return {"tty": "canonical_echo" if cfg["tty"] != "canonical_echo" else "rawish", "nonblock": not cfg["nonblock"],
-            "prev_handler": "default" if cfg["prev_handler"] == "custom" else "custom", "prev_wakeup": "none" if cfg["prev_wakeup"] == "pipe" else "pipe"}
+            "prev_handler": "default" if cfg["prev_handler"] != "default" else "custom", "prev_wakeup": "none" if cfg["prev_wakeup"] == "pipe" else "pipe"}
 
 
 def execute(env, cfg, factory, kind, body, crash, cdir, lifecycle="fresh"):
@@ -471,6 +471,8 @@ def configs_for(kind, thorough):
     out.append(dict(base, prev_handler="custom"))
     out.append(dict(base, prev_wakeup="pipe"))
     out.append(dict(base, tty="rawish", nonblock=True, prev_handler="custom", prev_wakeup="pipe"))
+    out.append(dict(base, prev_handler="SIG_DFL"))
+    out.append(dict(base, prev_handler="SIG_IGN", prev_wakeup="pipe"))
     return out
 
 
@@ -514,7 +516,7 @@ def shard(args):
             n, fails, outcome = execute(env, cfg, factory, kind, body, ("count",), cdir)
             record(body, ("count",), fails, outcome)
             for k in range(1, (n or 0) + 1):
-                for how in ("kbd", "signal"):
+                for how in (("kbd", "signal") if cfg["prev_handler"] in ("default", "custom") else ("kbd",)):
                     _, fails, outcome = execute(env, cfg, factory, kind, body, ("async", k, how), cdir)
                     record(body, ("async", k, how), fails, outcome)
             acc.add("async_points", n or 0)
@@ -636,7 +638,7 @@ def run(ctx):
         rep.merge(d, "non_main_thread")
     rep.validated = rep.n
     rep.rule = (
-        "%d context kinds/options x 10 initial environments (6 tty attribute sets, O_NONBLOCK on/off, previous SIGINT handler default/custom, "
+        "%d context kinds/options x 12 initial environments (6 tty attribute sets, O_NONBLOCK on/off, previous SIGINT handler default/custom, "
         "previous wake-up fd none/pipe, all combined) x bodies of <= 2 operations (requests with nothing / a key / an escape sequence / a paste "
         "pending, a timed request, each trigger factory + callback, unget_bytes; two renders; cursor diff) x crash points: normal exit, an "
         "exception after every prefix, KeyboardInterrupt and a real synchronous SIGINT at every asynchronous point (profile events call/c_return "
